@@ -560,7 +560,12 @@ func (ex *Exec) equal(a, b Value) *Term {
 	return nil
 }
 
-func describe(v Value) string {
+func describe(v Value) string { return describeD(v, 0) }
+
+func describeD(v Value, d int) string {
+	if d > 4 {
+		return "..."
+	}
 	switch x := v.(type) {
 	case *Term:
 		return x.String()
@@ -573,13 +578,13 @@ func describe(v Value) string {
 		if x.t == nil {
 			return "nil"
 		}
-		return fmt.Sprintf("%s(%s)", x.t, describe(x.v))
+		return fmt.Sprintf("%s(%s)", x.t, describeD(x.v, d+1))
 	case *PtrVal:
 		if x.isNil() {
 			return "nil"
 		}
 		if x.cell != nil {
-			return "&" + describe(x.cell.v)
+			return "&" + describeD(x.cell.v, d+1)
 		}
 		return "&arr[...]"
 	case TupleVal:
@@ -588,7 +593,7 @@ func describe(v Value) string {
 			if i > 0 {
 				s += ", "
 			}
-			s += describe(c)
+			s += describeD(c, d+1)
 		}
 		return s + ")"
 	case *StructVal:
@@ -597,7 +602,7 @@ func describe(v Value) string {
 			if i > 0 {
 				s += ", "
 			}
-			s += describe(c.v)
+			s += describeD(c.v, d+1)
 		}
 		return s + "}"
 	}
